@@ -231,10 +231,9 @@ func (ix *BM25SearchIndex) Add(id uint32, text string) error {
 
 // Remove performs soft delete using roaring bitmap.
 //
-// CONCURRENCY OPTIMIZATION:
-// - Uses read lock first (cheaper) to check if document exists
-// - Only acquires write lock for the actual bitmap modification
-// - Minimizes write lock contention
+// CONCURRENCY:
+// - Checks if document exists and marks it deleted in ONE write-locked critical section
+// - Releasing the lock in between lets two concurrent Removes of an ID both succeed
 //
 // SOFT DELETE MECHANISM:
 // Instead of immediately removing from all data structures (expensive O(m)),
@@ -253,17 +252,17 @@ func (ix *BM25SearchIndex) Add(id uint32, text string) error {
 //
 // Time Complexity: O(log n) for bitmap operation (vs O(m) for hard delete)
 //
-// Thread-safety: Uses read lock for validation, write lock for modification
+// Thread-safety: Acquires exclusive lock for validation and modification
 func (ix *BM25SearchIndex) Remove(id uint32) error {
 	// ════════════════════════════════════════════════════════════════════════
-	// STEP 1: CHECK EXISTENCE (READ LOCK - CHEAPER)
+	// STEP 1: CHECK EXISTENCE (WRITE LOCK - HELD UNTIL THE BITMAP UPDATE)
 	// ════════════════════════════════════════════════════════════════════════
-	ix.mu.RLock()
+	ix.mu.Lock()
+	defer ix.mu.Unlock()
 	_, exists := ix.docTokens[id]
 	alreadyDeleted := ix.deletedDocs.Contains(id)
-	ix.mu.RUnlock()
 
-	// Fast-fail validation outside of write lock
+	// Fast-fail validation before the bitmap is touched
 	if !exists {
 		return nil // Document doesn't exist, nothing to do
 	}
@@ -272,11 +271,9 @@ func (ix *BM25SearchIndex) Remove(id uint32) error {
 	}
 
 	// ════════════════════════════════════════════════════════════════════════
-	// STEP 2: MARK AS DELETED (WRITE LOCK - ONLY FOR BITMAP UPDATE)
+	// STEP 2: MARK AS DELETED (SAME CRITICAL SECTION)
 	// ════════════════════════════════════════════════════════════════════════
-	ix.mu.Lock()
 	ix.deletedDocs.Add(id)
-	ix.mu.Unlock()
 
 	return nil
 }
